@@ -146,6 +146,14 @@ def listenArgs (c : Cmd) : ListenArg × ListenArg :=
                                else (acc.1, ListenArg.addr it.2)) (ListenArg.none, ListenArg.none)
   | none => (if c.disableIpv6 then .none else .auto, .auto)
 
+/-- `helpers.family_ip_tuple`: a name-server text (from `--ns-hosts` or a `nameserver` line of
+resolv.conf) is IPv6 iff it contains a colon — scoped (`fe80::1%eth0`), IPv4-mapped and
+compressed forms included. -/
+def familyOfText (s : String) : Fam := if s.toList.contains ':' then Fam.v6 else Fam.v4
+
+/-- `[family_ip_tuple(ns) for ns in …]`; the `Nat` is the harness' numeric name of the text. -/
+def classifyNs (l : List (String × Ip)) : List Ns := l.map fun x => ⟨familyOfText x.1, x.2⟩
+
 /-! ## client.main: preparation (up to the port search) -/
 
 def isV4 (f : Fam) : Bool := f = Fam.v4
